@@ -864,14 +864,38 @@ class TypeHint(Generic[T_Hint], metaclass=_TypeHintMetaclass):
 
         # For each branch of that hint...
         for other_branch in other._branches:
+            # Branches of that branch. A branch of a union is typically *NOT*
+            # itself a union and thus its own only branch. A type variable that
+            # is a branch of a union is the exception: its own branches are
+            # its bound or constraints.
+            other_branch_branches = tuple(other_branch._branches)
+
             # If either...
             if (
                 # That branch is the "typing.Any" catch-all (then this hint is
                 # necessarily a subhint of that branch) *OR*...
                 other_branch._hint is Any or
-                # This hint is a subhint of that branch (according to the
-                # subclass-specific implementation of this test)...
-                self._is_subhint_branch(other_branch)
+                (
+                    # If that branch is its own only branch, this hint is a
+                    # subhint of that branch (according to the subclass-specific
+                    # implementation of this test)...
+                    self._is_subhint_branch(other_branch)
+                    if (
+                        len(other_branch_branches) == 1 and
+                        other_branch_branches[0] is other_branch
+                    ) else
+                    # Else, that branch has branches of its own (e.g., is a type
+                    # variable). In this case, this hint is a subhint of that
+                    # branch as a whole, preserving transitivity: e.g.,
+                    #     >>> T = TypeVar('T', bound=int)
+                    #     >>> is_subhint(int, T)
+                    #     True
+                    #     >>> is_subhint(T, Optional[T])
+                    #     True
+                    #     >>> is_subhint(int, Optional[T])
+                    #     True
+                    self.is_subhint(other_branch)
+                )
             ):
                 # Then this hint is a subhint of that hint.
                 return True
